@@ -117,13 +117,16 @@ class WriterOracles(Oracles):
                 tr = {"display": "Display", "debug": "Debug"}.get(a.kind)
                 if tr is None:
                     return "\u0001<DnaStringSlice formatted with %s>" % a.kind
-                ok, why = slice_fmt_faithful(it.facts, tr)
+                ok, why = slice_fmt_faithful(it.facts, tr)[:2]
+                raw = (slice_fmt_faithful(it.facts, tr) + ("",))[2]
                 if ok:
                     return "ACGT"
                 if ok is None:
                     return "\u0001<%s of a DnaStringSlice: %s>" % (tr, why)
                 # (plain text without quotes: inside a JSON string it is harmless, as a GFA sequence field it is not a sequence)
-                return "@NOT-THE-SEQUENCE: written with the slice's %s form, which is not its base sequence - %s@" % (tr, why.replace('"', "").replace("\\", "").replace("'", ""))
+                # followed by the text actually written for such a node, verbatim: whatever it contains lands in the export
+                return "@NOT-THE-SEQUENCE: written with the slice's %s form, which is not its base sequence - %s@%s" % (
+                    tr, why.replace('"', "").replace("\\", "").replace("'", ""), raw)
             if "tag-string" in v.tags:
                 return "XX:Z:tag"
             if "map-key" in v.tags:
@@ -433,6 +436,9 @@ def serde_rules(F, rep, rule="C20.4"):
                 rep.inconclusive(rule, key, "%s implements %s by hand; the derive contract does not apply" % (adt, tr))
             else:
                 rep.holds(rule, key, "%s: %s is derived" % (adt, tr))
+        # a derived Deserialize that goes through a hand-written conversion (#[serde(try_from = ..)] / from = ..): the conversion is part of
+        # reading back — it must accept every value the serializer writes and rebuild it field for field
+        rep.run(serde_conversion, F, rep, rule, adt)
         # every declared field is written by the derived serializer (no skipped field)
         a = F.adts.get(adt)
         ser = [b for b in F.fns.values() if b["path"].endswith("::serialize") and b.get("impl_self", "").split("<")[0] == adt and b.get("derived")]
@@ -469,3 +475,71 @@ def serde_rules(F, rep, rule="C20.4"):
             else:
                 rep.violated(rule, adt + "/all-fields", "the serializer of %s writes %d of its %d fields: a skipped field is lost in a round trip" % (adt, n, nf),
                              witness={"kind": "field-count", "got": n, "spec": nf})
+
+
+def serde_conversion(F, rep, rule, adt):
+    import re
+    from .lemmas import DnaT, DS
+    convs = set()
+    for b in F.fns.values():
+        if ("Deserialize<'de> for %s>" % adt) in b["path"] or ("Deserialize<'de> for %s<" % adt) in b["path"]:
+            for c in C.CFG(b).calls():
+                fr = c[2] or {}
+                k = fr.get("rkey") or fr.get("key") or ""
+                m = re.match(r"^<(.+) as std::convert::(TryFrom|From)<(.+)>>::(try_from|from)$", k)
+                if m and m.group(1).split("<")[0] == adt:
+                    convs.add((k, m.group(2), m.group(3)))
+    for k, kind, src in sorted(convs):
+        key = "%s/read-through-%s" % (adt, src.split("::")[-1])
+        body = F.fns.get(k)
+        sa, ta = F.adts.get(src.split("<")[0]), F.adts.get(adt)
+        if body is None or sa is None or ta is None or sa.get("kind") != "struct" or ta.get("kind") != "struct":
+            rep.inconclusive(rule, key, "%s is read back through %s, which is not a crate function / struct this check can interpret" % (adt, k))
+            continue
+        sn = [f["name"] for f in sa["variants"][0]["fields"]]
+        tn = [f["name"] for f in ta["variants"][0]["fields"]]
+        if sorted(sn) != sorted(tn) or adt != DS:
+            rep.inconclusive(rule, key, "%s is read back through %s (fields %s); no generator of its serialized values for this shape" % (adt, src, sn))
+            continue
+        dt = DnaT(F)
+        bad = inc = None
+        lens = list(range(0, 131))
+        for n in lens:
+            rep.evaluations += 1
+            ws = dt.words("s", n)
+            vals = {"storage": VecV([Int(64, False, bits=w) for w in ws]), "len": Int(64, False, val=n)}
+            it = Interp(F, False, Harness())
+            try:
+                r = it.call_body(body, [Adt(src.split("<")[0], 0, [vals[x] for x in sn])])
+            except Diverge as e:
+                bad = "panics on the serialized form of a %d-base string: %s" % (n, e)
+                break
+            except (Undecided, Unsupported) as e:
+                inc = str(e)
+                break
+            v = r
+            if kind == "TryFrom":
+                if not isinstance(r, Adt) or r.variant not in (0, 1):
+                    inc = "result %r" % (r,)
+                    break
+                if r.variant != 0:
+                    bad = "rejects the serialized form of a %d-base string (%d storage word(s)): a value written by the serializer cannot be read back" % (n, len(ws))
+                    break
+                v = r.fields[0]
+            if not (isinstance(v, Adt) and v.name == adt):
+                inc = "result %r" % (v,)
+                break
+            got = {x: v.fields[i] for i, x in enumerate(tn)}
+            st, ln = got["storage"], got["len"]
+            same = isinstance(ln, Int) and ln.is_conc() and ln.val == n and isinstance(st, VecV) and len(st.elems) == len(ws) and \
+                all(isinstance(e, Int) and list(e.getbits()) == list(w) for e, w in zip(st.elems, ws))
+            if not same:
+                bad = "changes the value of a %d-base string while reading it back (length %r, storage %r)" % (n, ln, st)
+                break
+        if bad:
+            rep.violated(rule, key, "%s is deserialised through %s, which %s" % (adt, k, bad), site=F.site(body, body["line"]),
+                         witness={"kind": "serde-conversion", "conversion": k})
+        elif inc:
+            rep.inconclusive(rule, key, "%s: %s" % (k, inc))
+        else:
+            rep.holds(rule, key, "%s is deserialised through %s: it accepts and rebuilds the serialized form of every string of %d..%d bases" % (adt, k, lens[0], lens[-1]))
